@@ -305,6 +305,46 @@ def run(repo: Repo, chk: Check, thorough: bool = False) -> None:
     if n_slots < 4:
         raise AnalysisError(f'R09.6: {n_slots} creations of a piecewise-filled slot found in the field handlers (4 confirmed: return/returntype/yield/yieldtype)')
     chk.require('R09.6', 4)
+    # ... and such a slot is rendered whichever of its parts it has: the condition under which format() shows it may test the slot as a whole
+    # (`if self.yields_desc`, `.is_documented()`), not one part - a test of `.body` alone loses the entry of a function that only has `@ytype:`
+    cfgfmt = CFG(fmt)
+    n_shown = 0
+    for slot, parts in sorted(piecewise.items()):
+        if len(parts) < 2:
+            continue
+        shows = [c for c in calls_in(fmt) if any(isinstance(x, ast.Attribute) and norm(x) == f'self.{slot}' for a in c.args for x in ast.walk(a))
+                 and not (isinstance(c.func, ast.Attribute) and norm(c.func.value).startswith(f'self.{slot}'))]
+        for c in shows:
+            facts = cfgfmt.dominating_tests(cfgfmt.stmt_of(c))
+
+            def ev(e: ast.AST, have: str) -> Optional[bool]:
+                """truth of a test for an entry that has only the part `have` (None: not decided by the parts)"""
+                if isinstance(e, ast.Attribute) and norm(e.value) == f'self.{slot}' and e.attr in parts:
+                    return e.attr == have
+                if isinstance(e, ast.Compare) and len(e.ops) == 1 and isinstance(e.comparators[0], ast.Constant) and e.comparators[0].value is None:
+                    v = ev(e.left, have)
+                    if v is not None and isinstance(e.ops[0], (ast.IsNot, ast.NotEq)):
+                        return v
+                    if v is not None and isinstance(e.ops[0], (ast.Is, ast.Eq)):
+                        return not v
+                    return None
+                if isinstance(e, ast.UnaryOp) and isinstance(e.op, ast.Not):
+                    v = ev(e.operand, have)
+                    return None if v is None else not v
+                if isinstance(e, ast.BoolOp):
+                    vs = [ev(x, have) for x in e.values]
+                    if isinstance(e.op, ast.Or):
+                        return True if any(v is True for v in vs) else (False if all(v is False for v in vs) else None)
+                    return False if any(v is False for v in vs) else (True if all(v is True for v in vs) else None)
+                return None
+            lost = sorted(pt for pt in parts if any(ev(t, pt) is (not pol) for t, pol in facts))
+            n_shown += 1
+            chk.ob('R09.6', f'{FH}.format :: self.{slot} is rendered whichever of its parts ({", ".join(sorted(parts))}) it has', not lost,
+                   'shown under tests of the slot as a whole' if not lost else
+                   f'the rendering is under a test of one part: an entry that only has its `{lost[0]}` (a function documented with `@ytype:` / `:ytype:` or `@rtype:` alone) '
+                   'is left out - the text appears nowhere and nothing is reported', repo.loc(fmt.mod, c))
+    if n_shown < 2:
+        raise AnalysisError(f'R09.6: {n_shown} renderings of a piecewise-filled slot found in FieldHandler.format (return_desc, yields_desc confirmed)')
 
     # ------------------------------------------------------------------ R09.9
     # a function that replaces the field list of a parsed docstring (`pdoc.fields = kept`) after looping over it decides the fate of every
